@@ -74,6 +74,11 @@ Definition str (s : string) : list Z :=
 Definition hexs (s : string) : list Z :=
   match hex_decode (str s) with Some l => l | None => [] end.
 
+(* Closes a goal [l = r] between closed terms by ONE evaluation in the VM: the kernel compares
+   the normal forms when it checks the cast at Qed.  ([vm_compute. reflexivity.] evaluates
+   twice: once in the tactic and once more at Qed.) *)
+Ltac vm_check := match goal with |- ?l = ?r => vm_cast_no_check (@eq_refl _ r) end.
+
 (* ---- lemmas ---- *)
 
 Lemma be_bytes_length : forall n z, length (be_bytes n z) = n.
